@@ -164,29 +164,38 @@ func Handle(c *core.Check, st core.State) {
 		if a, b, ok := nestedPair(bv); ok {
 			pairs = append(pairs, pair{"nested", a, b})
 		}
-		for _, p := range pairs {
-			var r [2]cty.Value
-			var d [2]hcl.Diagnostics
-			panicked := false
-			for i, mv := range []cty.Value{p.a, p.b} {
-				sc := map[string]cty.Value{}
-				for k, val := range base {
-					sc[k] = val
-				}
-				sc[x] = mv
-				c.Count("evaluations", 1)
-				if rec, pn := core.Guard(func() { r[i], d[i] = expr.Value(&hcl.EvalContext{Variables: sc, Functions: funcs}) }); pn {
-					c.Violation("panic/"+e1.Fam(v.Node), fmt.Sprintf("%q panicked with %s = %s (%s mark): %v", src, x, e1.Describe(mv), p.how, rec), vec)
-					panicked = true
+		// scope variants: the model scope, and the model scope with ANOTHER variable of the expression
+		// unknown (what is known about the result must not depend on the marked content either,
+		// unless the result is marked); the second kind with the first content pair only
+		type variant struct {
+			unk   string
+			scope map[string]cty.Value
+		}
+		variants := []variant{{"", e1.Scope()}}
+		for _, y := range v.FV {
+			if by, ok := base[y]; ok && y != x && len(variants) < 3 {
+				sc := e1.Scope()
+				sc[y] = cty.UnknownVal(by.Type())
+				variants = append(variants, variant{y, sc})
+			}
+		}
+		for _, vr := range variants {
+			base := vr.scope
+			unkNote := ""
+			if vr.unk != "" {
+				unkNote = " with " + vr.unk + " unknown"
+			}
+			vec := vec
+			if vr.unk != "" {
+				vec = map[string]any{"state": st.Raw, "source": src, "unknown": vr.unk}
+			}
+			for pi, p := range pairs {
+				if vr.unk != "" && pi > 0 {
 					break
 				}
-			}
-			if panicked {
-				return
-			}
-			for ji, je := range jforms {
-				var jr [2]cty.Value
-				var jd [2]hcl.Diagnostics
+				var r [2]cty.Value
+				var d [2]hcl.Diagnostics
+				panicked := false
 				for i, mv := range []cty.Value{p.a, p.b} {
 					sc := map[string]cty.Value{}
 					for k, val := range base {
@@ -194,134 +203,158 @@ func Handle(c *core.Check, st core.State) {
 					}
 					sc[x] = mv
 					c.Count("evaluations", 1)
-					if rec, pn := core.Guard(func() { jr[i], jd[i] = je.Value(&hcl.EvalContext{Variables: sc, Functions: funcs}) }); pn {
-						c.Violation("panic/json-object-key", fmt.Sprintf("JSON expression %s panicked with %s = %s (%s mark): %v", jsrcs[ji], x, e1.Describe(mv), p.how, rec),
-							map[string]any{"state": st.Raw, "source": src, "json": jsrcs[ji]})
-						return
+					if rec, pn := core.Guard(func() { r[i], d[i] = expr.Value(&hcl.EvalContext{Variables: sc, Functions: funcs}) }); pn {
+						c.Violation("panic/"+e1.Fam(v.Node), fmt.Sprintf("%q panicked with %s = %s (%s mark): %v", src, x, e1.Describe(mv), p.how, rec), vec)
+						panicked = true
+						break
 					}
 				}
-				if jd[0].HasErrors() || jd[1].HasErrors() {
+				if panicked {
+					return
+				}
+				for ji, je := range jforms {
+					var jr [2]cty.Value
+					var jd [2]hcl.Diagnostics
+					for i, mv := range []cty.Value{p.a, p.b} {
+						sc := map[string]cty.Value{}
+						for k, val := range base {
+							sc[k] = val
+						}
+						sc[x] = mv
+						c.Count("evaluations", 1)
+						if rec, pn := core.Guard(func() { jr[i], jd[i] = je.Value(&hcl.EvalContext{Variables: sc, Functions: funcs}) }); pn {
+							c.Violation("panic/json-object-key", fmt.Sprintf("JSON expression %s panicked with %s = %s (%s mark): %v", jsrcs[ji], x, e1.Describe(mv), p.how, rec),
+								map[string]any{"state": st.Raw, "source": src, "json": jsrcs[ji]})
+							return
+						}
+					}
+					if jd[0].HasErrors() || jd[1].HasErrors() {
+						continue
+					}
+					j0, _ := jr[0].UnmarkDeep()
+					j1, _ := jr[1].UnmarkDeep()
+					// (when the key expression itself already launders the mark natively, that root cause is
+					// reported, or listed, under its own name below)
+					nativeLaunders := false
+					if !d[0].HasErrors() && !d[1].HasErrors() {
+						n0, _ := r[0].UnmarkDeep()
+						n1, _ := r[1].UnmarkDeep()
+						nativeLaunders = !n0.RawEquals(n1) && (!HasMark(r[0]) || !HasMark(r[1]))
+					}
+					if !j0.RawEquals(j1) && (!HasMark(jr[0]) || !HasMark(jr[1])) && !nativeLaunders {
+						if !c.Violation("mark-lost/json-object-key", fmt.Sprintf("JSON expression %s: with %s = %s the result is %s, with %s = %s it is %s; the result depends on the marked variable but does not carry its mark",
+							jsrcs[ji], x, e1.Describe(p.a), e1.Describe(jr[0]), x, e1.Describe(p.b), e1.Describe(jr[1])), map[string]any{"state": st.Raw, "source": src, "json": jsrcs[ji]}) {
+							return
+						}
+					}
+				}
+				if d[0].HasErrors() || d[1].HasErrors() {
 					continue
 				}
-				j0, _ := jr[0].UnmarkDeep()
-				j1, _ := jr[1].UnmarkDeep()
-				// (when the key expression itself already launders the mark natively, that root cause is
-				// reported, or listed, under its own name below)
-				nativeLaunders := false
-				if !d[0].HasErrors() && !d[1].HasErrors() {
-					n0, _ := r[0].UnmarkDeep()
-					n1, _ := r[1].UnmarkDeep()
-					nativeLaunders = !n0.RawEquals(n1) && (!HasMark(r[0]) || !HasMark(r[1]))
+				u0, _ := r[0].UnmarkDeep()
+				u1, _ := r[1].UnmarkDeep()
+				if u0.RawEquals(u1) {
+					continue
 				}
-				if !j0.RawEquals(j1) && (!HasMark(jr[0]) || !HasMark(jr[1])) && !nativeLaunders {
-					if !c.Violation("mark-lost/json-object-key", fmt.Sprintf("JSON expression %s: with %s = %s the result is %s, with %s = %s it is %s; the result depends on the marked variable but does not carry its mark",
-						jsrcs[ji], x, e1.Describe(p.a), e1.Describe(jr[0]), x, e1.Describe(p.b), e1.Describe(jr[1])), map[string]any{"state": st.Raw, "source": src, "json": jsrcs[ji]}) {
-						return
+				nontrivial = true
+				if !HasMark(r[0]) || !HasMark(r[1]) {
+					sc0 := map[string]cty.Value{}
+					sc1 := map[string]cty.Value{}
+					for k, val := range base {
+						sc0[k], sc1[k] = val, val
 					}
-				}
-			}
-			if d[0].HasErrors() || d[1].HasErrors() {
-				continue
-			}
-			u0, _ := r[0].UnmarkDeep()
-			u1, _ := r[1].UnmarkDeep()
-			if u0.RawEquals(u1) {
-				continue
-			}
-			nontrivial = true
-			if !HasMark(r[0]) || !HasMark(r[1]) {
-				sc0 := map[string]cty.Value{}
-				sc1 := map[string]cty.Value{}
-				for k, val := range base {
-					sc0[k], sc1[k] = val, val
-				}
-				sc0[x], sc1[x] = p.a, p.b
-				evalIn := func(sub *e1.Node, extra map[string]cty.Value) (cty.Value, bool) {
-					se, sd := hclsyntax.ParseExpression([]byte(e1.Render(sub, e1.Layout{})), "sub.hcl", hcl.InitialPos)
-					if sd.HasErrors() {
-						return cty.NilVal, false
-					}
-					val, vd := se.Value(&hcl.EvalContext{Variables: e1.With(sc0, extra), Functions: funcs})
-					return val, !vd.HasErrors()
-				}
-				small, extra := e1.Localise(v.Node, func(sub *e1.Node, extra map[string]cty.Value) bool {
-					se, sd := hclsyntax.ParseExpression([]byte(e1.Render(sub, e1.Layout{})), "sub.hcl", hcl.InitialPos)
-					if sd.HasErrors() {
-						return false
-					}
-					a, ad := se.Value(&hcl.EvalContext{Variables: e1.With(sc0, extra), Functions: funcs})
-					b, bd := se.Value(&hcl.EvalContext{Variables: e1.With(sc1, extra), Functions: funcs})
-					if ad.HasErrors() || bd.HasErrors() {
-						return false
-					}
-					ua, _ := a.UnmarkDeep()
-					ub, _ := b.UnmarkDeep()
-					return !ua.RawEquals(ub) && (!HasMark(a) || !HasMark(b))
-				}, evalIn)
-				site := e1.Fam(small)
-				if len(small.Sub) > 0 && (small.K == "index" || small.K == "attr" || small.K == "legacy" || small.K == "splat") {
-					if cv, ok := evalIn(small.Sub[0], extra); ok {
-						site += "(" + cv.Type().FriendlyName() + ")"
-					}
-				}
-				if small.K == "call" && (small.S == "try" || small.S == "can") {
-					// root cause: which argument of try / can succeeds depends on the marked content, and
-					// a failed argument leaves no value whose marks could be carried over
-					for _, arg := range small.Sub {
-						se, sd := hclsyntax.ParseExpression([]byte(e1.Render(arg, e1.Layout{})), "arg.hcl", hcl.InitialPos)
+					sc0[x], sc1[x] = p.a, p.b
+					evalIn := func(sub *e1.Node, extra map[string]cty.Value) (cty.Value, bool) {
+						se, sd := hclsyntax.ParseExpression([]byte(e1.Render(sub, e1.Layout{})), "sub.hcl", hcl.InitialPos)
 						if sd.HasErrors() {
-							continue
+							return cty.NilVal, false
 						}
-						_, d0 := se.Value(&hcl.EvalContext{Variables: e1.With(sc0, extra), Functions: funcs})
-						_, d1 := se.Value(&hcl.EvalContext{Variables: e1.With(sc1, extra), Functions: funcs})
-						if d0.HasErrors() != d1.HasErrors() {
-							site = "call:" + small.S + "/failed-argument"
-							break
-						}
+						val, vd := se.Value(&hcl.EvalContext{Variables: e1.With(sc0, extra), Functions: funcs})
+						return val, !vd.HasErrors()
 					}
-				}
-				if small.K == "cond" {
-					// root cause: the arm that is not selected fails for one of the two contents; its
-					// diagnostics are dropped but its placeholder still takes part in typing the result
-					for _, arm := range small.Sub[1:] {
-						se, sd := hclsyntax.ParseExpression([]byte(e1.Render(arm, e1.Layout{})), "arm.hcl", hcl.InitialPos)
+					small, extra := e1.Localise(v.Node, func(sub *e1.Node, extra map[string]cty.Value) bool {
+						se, sd := hclsyntax.ParseExpression([]byte(e1.Render(sub, e1.Layout{})), "sub.hcl", hcl.InitialPos)
 						if sd.HasErrors() {
-							continue
+							return false
 						}
-						a0, d0 := se.Value(&hcl.EvalContext{Variables: e1.With(sc0, extra), Functions: funcs})
-						a1, d1 := se.Value(&hcl.EvalContext{Variables: e1.With(sc1, extra), Functions: funcs})
-						if d0.HasErrors() != d1.HasErrors() || (d0.HasErrors() && d1.HasErrors() && !a0.Type().Equals(a1.Type())) {
-							site = "cond/unselected-arm-error"
+						a, ad := se.Value(&hcl.EvalContext{Variables: e1.With(sc0, extra), Functions: funcs})
+						b, bd := se.Value(&hcl.EvalContext{Variables: e1.With(sc1, extra), Functions: funcs})
+						if ad.HasErrors() || bd.HasErrors() {
+							return false
+						}
+						ua, _ := a.UnmarkDeep()
+						ub, _ := b.UnmarkDeep()
+						return !ua.RawEquals(ub) && (!HasMark(a) || !HasMark(b))
+					}, evalIn)
+					site := e1.Fam(small)
+					if len(small.Sub) > 0 && (small.K == "index" || small.K == "attr" || small.K == "legacy" || small.K == "splat") {
+						if cv, ok := evalIn(small.Sub[0], extra); ok {
+							site += "(" + cv.Type().FriendlyName() + ")"
 						}
 					}
-					// root cause: the two results are the same value of different TYPES, and the type was
-					// unified with an arm whose (nested) marks are not collected: only top-level marks of
-					// the arms are combined into the result
-					// (judged on the results of the localised conditional itself, not on the results of
-					// the expression around it: `[b ? null : [...]]` wraps the two nulls in a tuple)
-					if site == "cond" {
-						w0, w1 := u0, u1
-						if se, sd := hclsyntax.ParseExpression([]byte(e1.Render(small, e1.Layout{})), "cond.hcl", hcl.InitialPos); !sd.HasErrors() {
-							s0, d0 := se.Value(&hcl.EvalContext{Variables: e1.With(sc0, extra), Functions: funcs})
-							s1, d1 := se.Value(&hcl.EvalContext{Variables: e1.With(sc1, extra), Functions: funcs})
-							if !d0.HasErrors() && !d1.HasErrors() {
-								w0, _ = s0.UnmarkDeep()
-								w1, _ = s1.UnmarkDeep()
+					if small.K == "call" && (small.S == "try" || small.S == "can") {
+						// root cause: which argument of try / can succeeds depends on the marked content, and
+						// a failed argument leaves no value whose marks could be carried over
+						for _, arg := range small.Sub {
+							se, sd := hclsyntax.ParseExpression([]byte(e1.Render(arg, e1.Layout{})), "arg.hcl", hcl.InitialPos)
+							if sd.HasErrors() {
+								continue
+							}
+							_, d0 := se.Value(&hcl.EvalContext{Variables: e1.With(sc0, extra), Functions: funcs})
+							_, d1 := se.Value(&hcl.EvalContext{Variables: e1.With(sc1, extra), Functions: funcs})
+							if d0.HasErrors() != d1.HasErrors() {
+								site = "call:" + small.S + "/failed-argument"
+								break
 							}
 						}
-						if c1, err := convert.Convert(w1, w0.Type()); (err == nil && c1.RawEquals(w0)) || (w0.IsNull() && w1.IsNull()) {
-							site = "cond/result-type-from-marked-arm"
+					}
+					if small.K == "cond" {
+						// root cause: the arm that is not selected fails for one of the two contents; its
+						// diagnostics are dropped but its placeholder still takes part in typing the result
+						for _, arm := range small.Sub[1:] {
+							se, sd := hclsyntax.ParseExpression([]byte(e1.Render(arm, e1.Layout{})), "arm.hcl", hcl.InitialPos)
+							if sd.HasErrors() {
+								continue
+							}
+							a0, d0 := se.Value(&hcl.EvalContext{Variables: e1.With(sc0, extra), Functions: funcs})
+							a1, d1 := se.Value(&hcl.EvalContext{Variables: e1.With(sc1, extra), Functions: funcs})
+							if d0.HasErrors() != d1.HasErrors() || (d0.HasErrors() && d1.HasErrors() && !a0.Type().Equals(a1.Type())) {
+								site = "cond/unselected-arm-error"
+							}
+						}
+						// root cause: the two results are the same value of different TYPES, and the type was
+						// unified with an arm whose (nested) marks are not collected: only top-level marks of
+						// the arms are combined into the result
+						// (judged on the results of the localised conditional itself, not on the results of
+						// the expression around it: `[b ? null : [...]]` wraps the two nulls in a tuple)
+						if site == "cond" {
+							w0, w1 := u0, u1
+							if se, sd := hclsyntax.ParseExpression([]byte(e1.Render(small, e1.Layout{})), "cond.hcl", hcl.InitialPos); !sd.HasErrors() {
+								s0, d0 := se.Value(&hcl.EvalContext{Variables: e1.With(sc0, extra), Functions: funcs})
+								s1, d1 := se.Value(&hcl.EvalContext{Variables: e1.With(sc1, extra), Functions: funcs})
+								if !d0.HasErrors() && !d1.HasErrors() {
+									w0, _ = s0.UnmarkDeep()
+									w1, _ = s1.UnmarkDeep()
+								}
+							}
+							if c1, err := convert.Convert(w1, w0.Type()); (err == nil && c1.RawEquals(w0)) || (w0.IsNull() && w1.IsNull()) {
+								site = "cond/result-type-from-marked-arm"
+							}
 						}
 					}
-				}
-				sig := "mark-lost/" + p.how + "/" + site
-				if strings.HasSuffix(site, "/failed-argument") || site == "cond/unselected-arm-error" || site == "cond/result-type-from-marked-arm" {
-					sig = "mark-lost/" + site // a named root cause, wherever the mark sits
-				}
-				if !c.Violation(sig,
-					fmt.Sprintf("%q: with %s = %s the result is %s, with %s = %s it is %s; the result depends on the marked variable but does not carry its mark (smallest laundering sub-expression: %q)",
-						src, x, e1.Describe(p.a), e1.Describe(r[0]), x, e1.Describe(p.b), e1.Describe(r[1]), e1.Render(small, e1.Layout{})), vec) {
-					return
+					sig := "mark-lost/" + p.how + "/" + site
+					if strings.HasSuffix(site, "/failed-argument") || site == "cond/unselected-arm-error" || site == "cond/result-type-from-marked-arm" {
+						sig = "mark-lost/" + site // a named root cause, wherever the mark sits
+					}
+					if vr.unk != "" && !strings.HasPrefix(sig, "mark-lost/cond/") && !strings.HasSuffix(sig, "/failed-argument") {
+						// a scope with an unknown variable: sites are named apart from the known-scope ones
+						sig = "mark-lost/unknown-scope/" + site
+					}
+					if !c.Violation(sig,
+						fmt.Sprintf("%q%s: with %s = %s the result is %s, with %s = %s it is %s; the result depends on the marked variable but does not carry its mark (smallest laundering sub-expression: %q)",
+							src, unkNote, x, e1.Describe(p.a), e1.Describe(r[0]), x, e1.Describe(p.b), e1.Describe(r[1]), e1.Render(small, e1.Layout{})), vec) {
+						return
+					}
 				}
 			}
 		}
